@@ -276,7 +276,7 @@ pub fn run_case(case: &Value, idx: u64, out: &mut Out) {
         return;
     };
     let mut variants = Vec::new();
-    for kind in ["large", "spare"] {
+    for kind in ["large", "spare", "padded"] {
         let vb = from_bytes(&case[kind]);
         if vb.is_empty() {
             continue;
